@@ -262,7 +262,12 @@ if __name__ == "__main__":
             out = [d for d in super().generate(rng, tier) if d.get("edit")]
             return out[:60 if tier == "quick" else 800]
 
-    main("C06", [PurityStream(), MonitorReread(), LaterBuiltStream(), BlockHistory(), ResolveAfterEdit()],
+    class SweepSnapshot(c10.SweepMonStream):
+        """a swept solve whose sweep buffer the caller overwrites afterwards: the result's tables keep the solved values
+        (the sweep stream of C10, whose driver does exactly that)"""
+        name = "sweep_snapshot"
+
+    main("C06", [PurityStream(), MonitorReread(), LaterBuiltStream(), BlockHistory(), ResolveAfterEdit(), SweepSnapshot()],
          level_text="props/C06.v; the tie solves a hierarchy and its (shared) sub-solvers in random order with random "
                     "argument subsets, keeps every result alive, reads each result right after its call and again after all "
                     "later calls, and compares both readings with the model's history-free value for that call; spy leaves "
